@@ -5,6 +5,12 @@ import common
 
 PROPS_OPS = "RotoV.Props.C01"        # per-operator theorems T1–T3 (over Generated/OpTables)
 PROPS_DCE = "RotoV.Props.C01Dce"     # T4: dead-code elimination preserves execution
+PROPS_LOWER = "RotoV.Props.C01Lower" # T5: Spec value = value of the lowering model's structured MIR (composed with C08's simulation)
+PROPS_LIR = "RotoV.Props.C01Lir"     # LIR layer: the model of lir/lower.rs (scalar MIR CFG -> LIR CFG) preserves execution
+LIR_EXTRA = ["RotoV.Model.C01Lir", "RotoV.Lemmas.C01LirSim", "RotoV.Model.C01MirRun"]
+LOWER_EXTRA = ["RotoV.Model.C01Resolve", "RotoV.Model.C01MirRun", "RotoV.Lemmas.C01Agree", "RotoV.Lemmas.C01Shape",
+               "RotoV.Lemmas.C01MirOps", "RotoV.Lemmas.C01SpecOps", "RotoV.Lemmas.C01MirComplete", "RotoV.Lemmas.C01ScalarCode", "RotoV.Model.TraceSpec", "RotoV.Model.LowerS", "RotoV.Lemmas.LowerS",
+               "RotoV.Lemmas.LowerSim", "RotoV.Lemmas.LowerTotal", "RotoV.Lemmas.TraceSpec", "RotoV.Props.C08"]
 
 
 def _ops_file():
@@ -36,6 +42,17 @@ def run(ctx):
     theorems += ctx.coverage.get("theorems", [])
     examples += ctx.coverage.get("nonvacuity_examples", 0)
     axioms.update(ctx.coverage.get("axioms", {}))
+    if os.path.exists(os.path.join(common.LEAN, *PROPS_LOWER.split(".")) + ".lean"):
+        extra = [m for m in LOWER_EXTRA if os.path.exists(os.path.join(common.LEAN, *m.split(".")) + ".lean")]
+        ctx.prove(PROPS_LOWER, extra_modules=extra)
+        theorems += ctx.coverage.get("theorems", [])
+        examples += ctx.coverage.get("nonvacuity_examples", 0)
+        axioms.update(ctx.coverage.get("axioms", {}))
+    if os.path.exists(os.path.join(common.LEAN, *PROPS_LIR.split(".")) + ".lean"):
+        ctx.prove(PROPS_LIR, extra_modules=LIR_EXTRA)
+        theorems += ctx.coverage.get("theorems", [])
+        examples += ctx.coverage.get("nonvacuity_examples", 0)
+        axioms.update(ctx.coverage.get("axioms", {}))
     ctx.coverage["theorems"] = theorems
     ctx.coverage["nonvacuity_examples"] = examples
     ctx.coverage["axioms"] = axioms
@@ -44,8 +61,15 @@ def run(ctx):
     ctx.trusted += [
         "the reference interpreter RotoV/Model/Spec.lean is the reading of the manual (docs/source/reference/language_reference.md) "
         "that defines 'the language-defined result'; IEEE-754 operations are Lean's native Float/Float32 in the driver",
-        "Cranelift code generation and the host ABI are exercised, not modelled: whole-program correspondence is a differential "
-        "run (the quantifier over programs and inputs is sampled)",
+        "Cranelift code generation, LIR control flow and the host ABI are exercised, not modelled: below MIR, whole-program "
+        "correspondence is a differential run (the quantifier over programs and inputs is sampled)",
+        "T5 (Props/C01Lower) is a theorem about the lowering model Model/LowerS.lean (C08's model of Lowerer::expr); that the "
+        "model's structured MIR is the compiler's MIR rests on the IR-level comparison with the real MIR dump of every function of "
+        "the class representatives and of generated programs of the fragment on every run (hook verif_hooks::c08::dump), and on "
+        "C08's c08order skeletons; drops / stack frames / the label layout are outside the model",
+        "the LIR layer (Props/C01Lir) is a theorem about Model/C01Lir.lean; that this model is lir/lower.rs on the scalar vocabulary rests "
+        "on running it on the real MIR of every function of the class representatives and generated fragment programs and comparing with "
+        "the real LIR (hook verif_hooks::c01::stage_pairs) on every run; its LIR semantics is this project's reading of the LIR",
         "the abstract CFG of Model/Dce.lean stands for mir::Item.blocks; its tie is the translator target `dce` plus running "
         "Dce.dce on the real pre-DCE CFG of every generated program (hook verif_hooks::c01::cfgs)",
     ]
@@ -53,8 +77,11 @@ def run(ctx):
         level="proof",
         rule="operator table: every (operator, type) x boundary^2 + random operands, JIT vs Spec; programs: type-directed "
              "generator (helpers, (mutual) recursion, while, if/else, early return, compound assignment, shadowing, dead code) x 30 "
-             "argument tuples (boundary, random, small); a class is distinct by (type, operator, outcome) in the table, by program "
-             "text with >=1 execution where the Spec yields a value and the JIT agrees, or by (construct set, arg type, ret type)",
+             "argument tuples (boundary, random, small); T5 tie: 16 class representatives (one per construct of the fragment) first, then "
+             "generated i32/bool programs with variables named by level: Spec value = composed-model value = JIT value on every tuple, and "
+             "the model's structured MIR = the real MIR dump of every function, the LIR model on the real MIR = the real LIR of every function, and mRun (real MIR) = lRun (model LIR) = Spec value; a class is distinct by (type, operator, outcome) in the table, by program "
+             "text with >=1 execution where the Spec yields a value and the JIT agrees, by (construct set, arg type, ret type), or (t5:) by "
+             "construct set of a fragment program whose MIR comparison succeeded on all functions",
         search=search,
     )
 
